@@ -18,6 +18,23 @@ NOTES = {
     "C18-1": "was found, but the replay in a fresh process did not reproduce (the defect is process-local state) and the driver exited 2; such violations are now reported with a stability note",
     "C19-1": "needed the governance route (records created without tx bytes)",
     "C19-3": "the corrupted record made the query abort and the workload treated that as harness trouble; now a violation",
+    "C02-r2-2": "needed bank denoms that merely look like liquidity denoms (kitty-1) named in remove-liquidity",
+    "C06-r2-1": "needed runs with ten or more farm pools",
+    "C05-r2-2": "needed runs with ten or more farm pools",
+    "C06-r2-3": "needed a governance-created pool (creator = distribution module account); the message route cannot execute in this application (no escrow_collector account, no proposal route), so the pool is put into the run's genesis",
+    "C05-r2-1": "same-block operation clusters on one pool made it frequent",
+    "C05-r2-3": "needed pools with budget = rate*k staked exactly from the start height and left alone until expiry",
+    "C07-r2-1": "needed fees in two denominations: C07 now runs on the service+feeds profile",
+    "C08-r2-3": "a C07 clause (slash bookkeeping): caught by C07's check",
+    "C09-r2-3": "needed the legacy v1beta1 message route in the workload",
+    "C10-r2-1": "needed pay-out ghosts (rolled-back issue of the fee-swap pay-out token with another scale); patch rebased after the fee-swap resolution fix",
+    "C10-r2-3": "needed tokens whose symbol equals another token's min unit; this workload extension also exposed a genuine defect (fee swap resolved the pay-out token symbol-first), fixed in faa1a4b",
+    "C11-r2-2": "needed the cross-process comparison of app-hash chains and runs whose genesis omits htlc's previous_block_time",
+    "C16-r2-2": "needed 14 consecutive blocks on the lab's branches (requests expiring under slash fraction 1)",
+    "C17-r2-1": "needed feed names in prefix relation",
+    "C17-r2-3": "needed threshold edits landing inside open batches and the batch's own threshold as the reference",
+    "C15-r2-3": "NOT reachable by construction: needs a hand-written genesis whose balances overflow uint64 in sum; no history and no export produces it (C15 quantifies over histories)",
+    "C19-r2-1": "ids are process-history dependent only across nodes: caught by the replicas of C11",
 }
 
 
